@@ -597,40 +597,32 @@ func (a *align) RefCoordinates(name string, refstart, reflen int) (alistart, ali
 func (a *align) RefSites(name string, sites []int) (refsites []int, err error) {
 	var exists bool
 	var seq []uint8
-	var tmpi int
-	var site uint8
-	var ngaps int
-	var isite int
 
 	if seq, exists = a.GetSequenceChar(name); !exists {
 		err = fmt.Errorf("Sequence %s does not exist in the alignment", name)
 		return
 	}
 
-	mappos := make(map[int]bool)
+	// alignment positions of the non gap characters of the reference sequence
+	refpos := make([]int, 0, len(seq))
+	for isite, site := range seq {
+		if site != GAP {
+			refpos = append(refpos, isite)
+		}
+	}
+
+	// The positions are returned in the order they are given
+	refsites = make([]int, 0, len(sites))
 	for _, s := range sites {
 		if s < 0 {
 			err = fmt.Errorf("site on reference sequence must be > 0 : %d", s)
-			return
+			return nil, err
 		}
-		if s >= a.Length() {
-			err = fmt.Errorf("site is outside alignment : %d", s)
-			return
+		if s >= len(refpos) {
+			err = fmt.Errorf("site is outside the reference sequence : %d", s)
+			return nil, err
 		}
-		mappos[s] = true
-	}
-
-	//look for start
-	tmpi = -1
-	for isite, site = range seq {
-		if site != GAP {
-			tmpi++
-			if _, ok := mappos[tmpi]; ok {
-				refsites = append(refsites, isite)
-			}
-		} else {
-			ngaps++
-		}
+		refsites = append(refsites, refpos[s])
 	}
 
 	return
